@@ -266,6 +266,7 @@ func C02(run *report.Run) {
 			{world.UintCfg(2, urange(1, 4), 1, B, "tiny1"), []string{"clone", "root+load"}, 2, true, 0},
 			{world.LKeyCfg(2, []uint8{0, 2, 0, 1, 0}, 1, B, "big"), []string{"clone", "root+load"}, 2, true, 0},
 			{deep(B, "big"), []string{"root+load", "clone"}, 2, true, 1},
+			{world.IntCfg(2, []int{1, 2, 3, 4}, []interface{}{[]int{1}, []int{2, 3}}, []int{}, M, "big"), []string{"clone", "root+load"}, 2, true, 0},
 		}
 	} else {
 		all := []string{"clone", "root+load", "root+loadnc", "cursor", "clone-of-clone", "root+load-twice", "root+coldload-twice"}
